@@ -46,7 +46,7 @@ class C11(Check):
         "cases: (server) the request corpus of C01-C03 and the middleware / error-handler configurations of C12 - each case is dispatched by the "
         "sync dispatcher (plain functions), the async dispatcher (coroutines and async views) and the async dispatcher with the sync "
         "registry (plain functions); (client-script) C19's per-attempt outcome words x retry strategies x 0..3 tracers x single / batch / "
-        "notification x caller / default trace context; (client-retry) C09's strategies x outcome words x placements; (client-notation) "
+        "notification x caller / default trace context x JSON codec configured on the client {defaults, encoder / decoder classes, loader / dumper functions: floats parsed as Decimal, Decimal parameters written as tagged strings}; (client-retry) C09's strategies x outcome words x placements; (client-notation) "
         "C07's call plans x notations x id generators through sync-client+sync-dispatcher and async-client+async-dispatcher. Oracle "
         "(differential): identical response document + codes + execution log + middleware/handler event log; identical wire documents and transport keyword arguments (client-wide request_args merged with per-call ones), "
         "returned values, exception class / code / message / data, tracer event sequence and sleep sequence. non-trivial as in the source "
@@ -59,7 +59,7 @@ class C11(Check):
         "random-based id generators are reseeded identically before each half; the uuid generator is not used here",
     ]
     trusted_base = ['none beyond the harness: both halves are the implementation under test']
-    required_classes = ['server/plain', 'server/stack', 'client-script', 'client-retry', 'client-notation', 'server/async-plain-functions']
+    required_classes = ['server/plain', 'server/stack', 'client-script', 'client-retry', 'client-notation', 'server/async-plain-functions', 'codec/classes', 'codec/functions']
 
     def strategy(self, tier: str):
         def server_plain():
@@ -69,8 +69,9 @@ class C11(Check):
                              docs.document(reg), stdreg.behaviours(), st.sampled_from(BATCH_LIMITS))
         s12 = c12.CHECK.strategy(tier).map(lambda s: {'kind': 'server', 'max_batch_size': None, 'behaviours': s['behaviours'], 'text': s['text'],
                                                       'middlewares': s['middlewares'], 'handlers': s['handlers']})
-        s19 = c19.CHECK.strategy(tier).map(lambda s: {**s, 'kind': 'client-script'})
-        s09 = c09.CHECK.strategy(tier).map(lambda s: {**s, 'kind': 'client-retry'})
+        s_codec = st.sampled_from(['default', 'default'] + ch.CODECS[1:])
+        s19 = st.tuples(c19.CHECK.strategy(tier), s_codec).map(lambda t: {**t[0], 'kind': 'client-script', 'codec': t[1]})
+        s09 = st.tuples(c09.CHECK.strategy(tier), s_codec).map(lambda t: {**t[0], 'kind': 'client-retry', 'codec': t[1]})
         s07 = c07.CHECK.strategy(tier).filter(lambda s: s['id_gen']['kind'] != 'uuid').map(lambda s: {**s, 'kind': 'client-notation'})
         return st.one_of(server_plain(), server_plain(), s12, s19, s09, s07)
 
@@ -81,6 +82,16 @@ class C11(Check):
             beh = {'boom': {'kind': 'raise_exc', 'exc': exc, 'marker': 'MARKER-c11-zq'}, 'boom2': {'kind': 'raise_exc', 'exc': exc, 'marker': 'MARKER-c11-zq'}}
             out.append({'kind': 'server', 'max_batch_size': None, 'behaviours': beh, 'middlewares': [], 'handlers': None,
                         'text': t([{'jsonrpc': '2.0', 'id': 1, 'method': 'boom'}, {'jsonrpc': '2.0', 'id': 2, 'method': 'boom2'}, {'jsonrpc': '2.0', 'method': 'boom'}])})
+        # plain functions served by the async dispatcher returning every falsy / edge JSON value (a result is a result, whatever its truth value)
+        for value in (0, False, 0.0, '', [], {}, None, -0.0, 1, True):
+            out.append({'kind': 'server', 'max_batch_size': None, 'behaviours': {'ret': {'kind': 'return', 'value': value}}, 'middlewares': [], 'handlers': None,
+                        'text': t([{'jsonrpc': '2.0', 'id': 1, 'method': 'ret'}, {'jsonrpc': '2.0', 'id': 2, 'method': 'echo', 'params': [value]},
+                                   {'jsonrpc': '2.0', 'id': 3, 'method': 'wrapped', 'params': [value]}])})
+        # scripted clients with an application JSON codec, every request kind
+        for codec in ch.CODECS[1:]:
+            for rk in ('single', 'batch', 'notification'):
+                out.append({'kind': 'client-script', 'codec': codec, 'request': rk, 'outcomes': ['listed-code', 'ok'], 'tracers': 1, 'ctx': 'default',
+                            'strategy': c19.strategy_for(2)})
         # middleware stacks and handler tables (generic handlers that replace the code + per-code handlers for old and new codes)
         batch = t([{'jsonrpc': '2.0', 'id': 1, 'method': 'nope'}, {'jsonrpc': '2.0', 'method': 'boom'}, {'jsonrpc': '2.0', 'id': 2, 'method': 'echo', 'params': [1]},
                    {'jsonrpc': '2.0', 'id': 3, 'method': 'echo'}, {'jsonrpc': '2.0', 'id': 4, 'method': 'bad.get'}])
@@ -169,9 +180,9 @@ class C11(Check):
             for n, el in enumerate(els):
                 rid = 'other-id' if (o['kind'] == 'identity' and n == 0) else el['id']
                 if o['kind'] in ('code', 'batch_code') and n == 0:
-                    out.append({'jsonrpc': '2.0', 'id': rid, 'error': {'code': o['code'], 'message': 'e', 'data': {'attempt': k}}})
+                    out.append({'jsonrpc': '2.0', 'id': rid, 'error': {'code': o['code'], 'message': 'e', 'data': {'attempt': k, 'ratio': 0.25}}})
                 else:
-                    out.append({'jsonrpc': '2.0', 'id': rid, 'result': {'attempt': k}})
+                    out.append({'jsonrpc': '2.0', 'id': rid, 'result': {'attempt': k, 'ratio': 0.5}})
             return json.dumps(out if isinstance(doc, list) else out[0])
 
         log: List[List[Any]] = []
@@ -190,13 +201,20 @@ class C11(Check):
         # client-wide transport arguments and per-call ones (the per-call value of a shared key must win, on both halves)
         kwargs['request_args'] = {'timeout': 5, 'verify': False}
         send_kw.update({'timeout': 1, 'headers': {'x': 'y'}})
+        # the JSON codec the application configured on the client (classes or functions); with it a Decimal parameter is sendable
+        codec = spec.get('codec', 'default')
+        kwargs.update(ch.codec_kwargs(codec))
+        one: Any = 1
+        if codec != 'default':
+            import decimal
+            one = decimal.Decimal('1.5')
         client = ch.make_client(kind, transport, **kwargs)
         ctx = SimpleNamespace(tag='caller') if spec.get('ctx') == 'caller' else None
         if rkind == 'batch':
-            req: Any = pjrpc.BatchRequest(pjrpc.Request('m', [1], id=1), pjrpc.Request('n', [2], id=2), pjrpc.Request('note', [3]))
+            req: Any = pjrpc.BatchRequest(pjrpc.Request('m', [one], id=1), pjrpc.Request('n', [2], id=2), pjrpc.Request('note', [3]))
             fn = lambda: client.batch.send(req, _trace_ctx=ctx, **send_kw)  # noqa: E731
         else:
-            req = pjrpc.Request('m', [1], id=None if rkind == 'notification' else 1)
+            req = pjrpc.Request('m', [one], id=None if rkind == 'notification' else 1)
             fn = lambda: client.send(req, _trace_ctx=ctx, **send_kw)  # noqa: E731
         with ch.captured_sleeps() as sleeps:
             try:
@@ -209,7 +227,7 @@ class C11(Check):
             ctx_ids.setdefault(e[2], len(ctx_ids))
             payload = None if e[5] is None else (summarise_exc(e[5]) if isinstance(e[5], BaseException) else summarise_value(e[5]))
             events.append([e[0], e[1], ctx_ids[e[2]], e[3] is ctx if ctx is not None else None, payload])
-        return {'sent': [[json.loads(t), n] for t, n in client.sent], 'value': summarise_value(value), 'exc': summarise_exc(exc),
+        return {'sent': [[json.loads(t), n] for t, n in client.sent], 'sent_text': [t for t, n in client.sent], 'value': summarise_value(value), 'exc': summarise_exc(exc),
                 'events': events, 'sleeps': list(sleeps), 'transport_kwargs': [dict(sorted(k.items())) for k in client.request_kwargs]}
 
     def _compare_clients(self, tag: str, a: Dict[str, Any], b: Dict[str, Any], where: str) -> List[Disc]:
@@ -217,7 +235,7 @@ class C11(Check):
         for half, o in (('sync', a), ('async', b)):
             if any(k != want for k in o['transport_kwargs']):
                 return [Disc(f"C11/{tag}/transport-arguments/{half}", f"transport got {o['transport_kwargs'][:2]} expected {want} on every attempt | {where}")]
-        for key in ('sent', 'exc', 'value', 'events', 'sleeps', 'transport_kwargs'):
+        for key in ('sent', 'sent_text', 'exc', 'value', 'events', 'sleeps', 'transport_kwargs'):
             x, y = a[key], b[key]
             if not ((x is None and y is None) or (x is not None and y is not None and jg.jeq(x, y))):
                 return [Disc(f"C11/{tag}/{key}", f"sync {jg.short(x, 350)} vs async {jg.short(y, 350)} | {where}")]
@@ -230,7 +248,7 @@ class C11(Check):
         a = self._script(spec, 'sync', outcomes, rkind, spec['strategy'])
         b = self._script(spec, 'async', outcomes, rkind, spec['strategy'])
         discs = self._compare_clients('client-script', a, b, where)
-        return Outcome(discs, len(a['sent']) >= 2 or spec['tracers'] >= 2, ['client-script', f"request/{rkind}"], evaluations=2)
+        return Outcome(discs, len(a['sent']) >= 2 or spec['tracers'] >= 2, ['client-script', f"request/{rkind}", f"codec/{spec.get('codec', 'default')}"], evaluations=2)
 
     def _run_client_retry(self, spec: Any) -> Outcome:
         rkind = spec['request']
@@ -240,7 +258,7 @@ class C11(Check):
         a = self._script(s, 'sync', spec['outcomes'], rkind, strategy, spec['placement'])
         b = self._script(s, 'async', spec['outcomes'], rkind, strategy, spec['placement'])
         discs = self._compare_clients('client-retry', a, b, where)
-        return Outcome(discs, len(a['sent']) >= 2, ['client-retry', f"placement/{spec['placement']}"], evaluations=2)
+        return Outcome(discs, len(a['sent']) >= 2, ['client-retry', f"placement/{spec['placement']}", f"codec/{spec.get('codec', 'default')}"], evaluations=2)
 
     def _run_client_notation(self, spec: Any) -> Outcome:
         runner = c07.CHECK
